@@ -18,6 +18,10 @@ def build(profile='dev', quiet=True):
             if not os.path.exists(lockfile): open(lockfile, 'w').write(want)
         except OSError:
             pass
+        # the C API dispatcher is regenerated from /repo/src/c_api on every build
+        import importlib.util
+        spec = importlib.util.spec_from_file_location('gen_capi', os.path.join(ROOT, 'tools', 'gen_capi.py'))
+        g = importlib.util.module_from_spec(spec); spec.loader.exec_module(g); g.write(os.environ.get('VERIF_REPO', '/repo'))
         cmd = ['cargo', 'build', '--offline'] + (['--release'] if profile == 'release' else [])
         env = dict(os.environ, CARGO_TARGET_DIR=TARGET, CARGO_NET_OFFLINE='true')
         env.pop('RUSTFLAGS', None)
@@ -71,3 +75,38 @@ def outcome(r):
         if k in r: return k
     if 'enc_err' in r: return 'err'
     return 'other'
+
+
+ASAN_TARGET = os.path.join(ROOT, '.cache', 'replay-asan')
+
+
+def build_asan():
+    """the same replay crate under AddressSanitizer + LeakSanitizer (nightly toolchain; std is not instrumented)"""
+    lock = open(os.path.join(ROOT, '.cache', 'replay.lock'), 'w')
+    fcntl.flock(lock, fcntl.LOCK_EX)
+    try:
+        env = dict(os.environ, CARGO_TARGET_DIR=ASAN_TARGET, CARGO_NET_OFFLINE='true', RUSTFLAGS='-Zsanitizer=address')
+        p = subprocess.run(['cargo', '+nightly', 'build', '--offline', '--target', 'x86_64-unknown-linux-gnu'], cwd=os.path.join(ROOT, 'replay'), env=env,
+                           stdout=subprocess.PIPE, stderr=subprocess.STDOUT)
+        if p.returncode != 0:
+            raise RuntimeError('ASan replay build failed:\n' + p.stdout.decode('utf-8', 'replace')[-4000:])
+        return os.path.join(ASAN_TARGET, 'x86_64-unknown-linux-gnu', 'debug', 'verif-replay')
+    finally:
+        fcntl.flock(lock, fcntl.LOCK_UN); lock.close()
+
+
+def run_asan(binary, cases, timeout=60):
+    """one process for the whole batch -> (sanitizer verdict or None, stderr tail).  Verdict: 'leak', 'heap-use-after-free',
+    'double-free', ... as named in the sanitizer's ERROR / SUMMARY line"""
+    import re
+    env = dict(os.environ, ASAN_OPTIONS='detect_leaks=1:abort_on_error=0:exitcode=23')
+    try:
+        p = subprocess.run([binary], input=''.join(json.dumps(c) + '\n' for c in cases).encode(), stdout=subprocess.PIPE, stderr=subprocess.PIPE, env=env, timeout=timeout)
+    except subprocess.TimeoutExpired:
+        return 'timeout', ''
+    err = p.stderr.decode('utf-8', 'replace')
+    m = re.search(r'ERROR: (?:AddressSanitizer|LeakSanitizer): ([\w-]+)', err)
+    if m: return ('leak' if 'leak' in m.group(1) or 'detected' in m.group(1) else m.group(1)), err[-1500:]
+    if 'LeakSanitizer: detected memory leaks' in err or 'byte(s) leaked' in err: return 'leak', err[-1500:]
+    if p.returncode not in (0,): return 'exit %d' % p.returncode, err[-1500:]
+    return None, ''
